@@ -155,7 +155,7 @@ def gen_uvr(g, tier, idx):
     r = g.r
     big = 6 if tier == "quick" else 8
     for _attempt in range(50):
-        style = r.choice(["dyadic", "full", "full", "VeqUt", "kwide", "dominantUV", "indefW", "illR", "isoR", "scaled", "samediag", "samediag", "lastdiffers", "sametrace"])
+        style = r.choice(["dyadic", "full", "full", "VeqUt", "kwide", "dominantUV", "indefW", "illR", "isoR", "scaled", "samediag", "samediag", "lastdiffers", "sametrace", "indefR", "indefR"])
         # every (dimension, block size dividing it, encoding) triple first, then random ones
         triples = [(dd, v, e) for dd in range(1, big + 1) for v in divisors(dd) for e in (0, 1)]
         if idx < len(triples):
@@ -173,6 +173,8 @@ def gen_uvr(g, tier, idx):
             enc = 1
         nb = d // bs
         k = r.randint(d + 1, d + 3) if style == "kwide" else r.randint(1, max(1, d + 1))
+        if style == "indefR":
+            k = d + r.randint(0, 1)
         b = batch_size(r)
         unit = 10 ** r.uniform(-5, 5) if style == "scaled" else 1.0      # S scales by unit^2 (1e-10 .. 1e10), the points by unit
         nblk = 1 if enc == 0 else nb
@@ -205,8 +207,23 @@ def gen_uvr(g, tier, idx):
                 blocks = [blocks[0]] + [[[v * t0 / sum(blk[a][a] for a in range(bs)) for v in row] for row in blk] for blk in blocks[1:]]
             su = 10 ** r.uniform(0.5, 1.5) if style == "dominantUV" else 10 ** r.uniform(-1, 0.5)
             U = [[r.uniform(-su, su) for _ in range(k)] for _ in range(d)]
+            if style == "indefR":
+                # R symmetric, invertible, well conditioned but NOT positive definite: some blocks get a negative
+                # direction (negative determinant for one direction, positive again for two); S = U V + R is positive
+                # definite all the same because U V dominates.  Only S is required to be positive definite.
+                which = [i for i in range(nblk) if r.random() < 0.6] or [r.randrange(nblk)]
+                for i in which:
+                    blk = blocks[i]
+                    for a in r.sample(range(bs), r.choice([1, 1, min(2, bs)])):
+                        cdrop = r.uniform(1.5, 3.0) * blk[a][a]
+                        blk[a][a] -= cdrop
+                rmax = max(abs(v) for blk in blocks for row in blk for v in row)
+                su = 1.0
+                U = [[(1.0 if a == c else 0.0) + r.uniform(-0.3, 0.3) for c in range(k)] for a in range(d)]
             if style == "VeqUt":
                 W = vlib.meye(k)
+            elif style == "indefR":
+                W = g.spd(k, cond=10 ** r.uniform(0, 1), scale=rmax * 10 ** r.uniform(0.8, 1.6))
             elif style == "indefW":
                 W = g.spd(k, cond=10 ** r.uniform(0, 1), scale=1.0)
                 j = r.randrange(k)
